@@ -17,17 +17,22 @@ TF(x, t) == [startOK |-> x.case.start = "absent" \/ x.conc.start - t <= x.conc.s
 Acc(x, t) == Accept(x.case, x.settings, TF(x, t), FALSE)
 Reach(x, t) == ReachesReplayCheck(x.case, x.settings, TF(x, t))
 Instants(x) == {x.p1.t0, x.p1.t1, x.p2.t0, x.p2.t1}
+\* the identity reported on success: the client principal is the ticket's; the user name is the ticket's cname, or - when
+\* the ticket carries a PAC that was verified - the account name inside that PAC (also sealed in the ticket by the KDC)
+NameOK(x, p) == /\ p.cnameIsTickets
+                /\ \/ p.userNameSrc = "ticket"
+                   \/ p.userNameSrc = "pac" /\ x.case.pac = "valid" /\ x.settings.decodePAC
 FirstOK(x) ==
   /\ x.p1.panic = ""
-  /\ (Acc(x, x.p1.t0) /\ Acc(x, x.p1.t1)) => (x.p1.ok /\ x.p1.nameIsTickets /\ x.p1.realmIsTickets /\ x.p1.untilIsTicketsEnd)
+  /\ (Acc(x, x.p1.t0) /\ Acc(x, x.p1.t1)) => (x.p1.ok /\ NameOK(x, x.p1) /\ x.p1.realmIsTickets /\ x.p1.untilIsTicketsEnd)
   /\ (~Acc(x, x.p1.t0) /\ ~Acc(x, x.p1.t1)) => ~x.p1.ok
   \* whatever the verdict: an identity is reported only on success, and then it is the sealed one
-  /\ x.p1.ok => (x.p1.nameIsTickets /\ x.p1.realmIsTickets /\ x.p1.untilIsTicketsEnd)
+  /\ x.p1.ok => (NameOK(x, x.p1) /\ x.p1.realmIsTickets /\ x.p1.untilIsTicketsEnd)
 \* the second presentation of the same AP-REQ: a replay if the first reached the replay check, else the same verdict
 SecondOK(x) ==
   /\ x.p2.panic = ""
   /\ x.p2.ok => /\ (\E t \in Instants(x) : ~Reach(x, t)) /\ (\E t \in Instants(x) : Acc(x, t))   \* only explainable by time
-                /\ x.p2.nameIsTickets /\ x.p2.realmIsTickets /\ x.p2.untilIsTicketsEnd
+                /\ NameOK(x, x.p2) /\ x.p2.realmIsTickets /\ x.p2.untilIsTicketsEnd
 LineOK(x) == FirstOK(x) /\ SecondOK(x)
 TInit == LT!Init /\ Init
 TNext == LT!Next /\ UNCHANGED vars
